@@ -192,3 +192,49 @@ Proof.
     destruct (e_urgent e); [rewrite F; reflexivity|]. destruct (_ <=? _); rewrite F; reflexivity. }
   rewrite G. reflexivity.
 Qed.
+
+(* upper bound (no starvation in the model): with a constant throttle every batch without an urgent event goes out no
+   later than first + throttle on the ideal clock, whatever else is received meanwhile -- rejected and erroring events
+   never postpone it *)
+Lemma flush_pending_window s R th : t_set (flush_timeout s R th) <> [] -> R <= t_last (flush_timeout s R th) + th.
+Proof.
+  unfold flush_timeout. destruct (t_set s) as [|i r] eqn:E; [rewrite E; intro H; contradiction|].
+  destruct (t_last s + th <? R) eqn:L; [cbn [t_set]; intro H; contradiction|]. intros _. apply N.ltb_ge in L. exact L.
+Qed.
+
+Theorem upper_bound_const l th :
+  (forall x, In x l -> snd (fst x) = th) ->
+  forall b, In b (collect l th) -> b_urgent b = false -> b_deliver b <= b_first b + th.
+Proof.
+  intros Hth.
+  assert (forall l' s, (forall x, In x l' -> snd (fst x) = th) ->
+            (forall b, In b (t_out s) -> b_urgent b = false -> b_deliver b <= b_first b + th) ->
+            forall b, In b (t_out (fold_left on_event l' s)) -> b_urgent b = false -> b_deliver b <= b_first b + th) as G.
+  { induction l' as [|x r IH]; intros s Hl Hs b Hb Hu; cbn [fold_left] in Hb; [apply Hs; assumption|].
+    destruct x as [[R th'] e]. assert (th' = th) as -> by (apply (Hl (R, th', e)); left; reflexivity).
+    apply (IH (on_event s (R, th, e))); try assumption; [intros y Hy; apply Hl; right; exact Hy|].
+    clear b Hb Hu. intros b Hb Hu. unfold on_event in Hb.
+    assert (forall b, In b (t_out (flush_timeout s R th)) -> b_urgent b = false -> b_deliver b <= b_first b + th) as H1.
+    { intros b0 Hb0 Hu0. apply flush_deliver_time in Hb0. destruct Hb0 as [Hb0|(A & B & _)]; [apply Hs; assumption | rewrite A, B; lia]. }
+    pose proof (flush_pending_window s R th) as W. set (s1 := flush_timeout s R th) in *. clearbody s1.
+    destruct (errors_on e); [apply H1; assumption|]. destruct (negb (accepted e)); [apply H1; assumption|].
+    destruct (e_urgent e).
+    - destruct Hb as [<-|Hb]; [discriminate | apply H1; assumption].
+    - destruct (th <=? R - match t_set s1 with [] => R | _ :: _ => t_last s1 end).
+      + destruct Hb as [<-|Hb]; [|apply H1; assumption]. cbn [b_first b_deliver].
+        destruct (t_set s1) as [|i r0] eqn:E; [lia | apply W; discriminate].
+      + apply H1; assumption. }
+  intros b Hb Hu. unfold collect, finish in Hb. apply in_rev in Hb. unfold run_events in *.
+  assert (forall b, In b (t_out (fold_left on_event l t0)) -> b_urgent b = false -> b_deliver b <= b_first b + th) as G0
+    by (apply (G l t0 Hth); intros b0 []).
+  destruct (t_set (fold_left on_event l t0)) as [|i r] eqn:E; [apply G0; assumption|].
+  destruct Hb as [<-|Hb]; [cbn; lia | apply G0; assumption].
+Qed.
+
+(* together: on the ideal clock a batch without an urgent event is delivered exactly one throttle after its first event *)
+Corollary delivery_time_exact l th :
+  (forall x, In x l -> snd (fst x) = th) -> mono 0 l ->
+  forall b, In b (collect l th) -> b_urgent b = false -> b_deliver b = b_first b + th.
+Proof.
+  intros Hth Hm b Hb Hu. pose proof (lower_bound_const l th Hth Hm b Hb Hu). pose proof (upper_bound_const l th Hth b Hb Hu). lia.
+Qed.
